@@ -31,7 +31,9 @@ SaveDone(r, i) ==
 AllowedExc(r) ==
     IF Sc(r).disconnect_fail /\ Sc(r).transport = "fake"
     THEN {"Transport"} \cup (IF Sc(r).finish = "raise" THEN {"Body"} ELSE {"none"})
-    ELSE IF Sc(r).finish = "raise" THEN {"Body"} ELSE {"none"}
+    ELSE IF Sc(r).finish = "raise" THEN {"Body"}
+    ELSE IF Sc(r).finish = "eof" THEN {"Transport"}      \* the body's read met the end of the stream
+    ELSE {"none"}
 
 (* while inside and with no file job outstanding, a save completed at most 15 minutes ago *)
 CadenceOK(r) ==
